@@ -5,12 +5,12 @@ CONSTANTS
   PlateNames <- PN
   VarSize = 2
   PlateSize = 2
-  Scales = {1}
-  MaxFactors = 3
-  Plus = "logaddexp"
-  Times = "add"
-  LeafKind = "log"
-  Tag = "sp_logaddexp3"
+  Scales = {1, 2}
+  MaxFactors = 2
+  Plus = "add"
+  Times = "mul"
+  LeafKind = "lin"
+  Tag = "sp_addmul_scaled"
 INVARIANT Inv_OracleInputs
 INVARIANT Emit
 CHECK_DEADLOCK FALSE
